@@ -70,6 +70,11 @@ EXTRA_PROGS = {
     "w_uchar_add_cmp": ("int f(unsigned char a, unsigned char b) { unsigned char c = a + b; return c < a; }", "f"),
     "w_schar_neg": ("int f(signed char a) { signed char b = -a; return b; }", "f"),
     "w_int_to_short_to_int": ("int f(int a) { return (short)a + (unsigned char)a; }", "f"),
+    "w_ull_cmp": ("int f(unsigned long long a, unsigned long long b) { return (a < b) + 2 * (a >= b + 1); }", "f"),
+    "w_loop_in_if": ("int f(int n, int k) { int s = 0; if (k > 0) { while (n > 0) { s += n; n -= k; if (s > 50) break; } s += 2; } return s + 1; }", "f"),
+    "w_two_loops": ("int f(int n, int k) { int s = 0; if (k & 1) { for (int i = 0; i < (n & 3); i++) s += i; } else { for (int j = 0; j < (k & 3); j++) s -= j; } return s * 3; }", "f"),
+    "w_globals_mixed": ("char tag[5]; int counter; short h; long long w; char last;\n"
+                        "int f(int a) { tag[4] = (char)a; counter = a * 3; h = (short)(a >> 3); w = a; last = 7; tag[0] = 1; return counter + tag[4] + h + last; }", "f"),
     "w_ll_bitops": ("long long f(long long a, long long b) { return (a & b) | (a ^ 5) ; }", "f"),
     "w_ll_shift": ("long long f(long long a, int n) { return (a << (n & 31)) + (a >> (n & 31)); }", "f"),
     "w_ull_shift": ("unsigned long long f(unsigned long long a, int n) { return a >> (n & 63); }", "f"),
@@ -191,6 +196,10 @@ class Ir2WasmHarness(Harness):
         layout = {}
         for v in m1.variables:
             layout[v.name] = comp.global_labels[v.name]
+        spans = sorted((layout[v.name], layout[v.name] + v.amount) for v in m1.variables)
+        if any(x[1] > y[0] for x, y in zip(spans, spans[1:])) or (spans and spans[0][0] < comp.STACKSIZE):
+            res["status"] = "globals-overlap"
+            return res
         for k, name in enumerate(sorted(i["bufs"])):
             layout[name] = BUF_ADDR + 32 * k
         # -- reference: the IR
@@ -259,7 +268,9 @@ class Ir2WasmHarness(Harness):
             except wasmsem.Trap as e:
                 out["trap"] = str(e)
             except wasmsem.StepLimit as e:
-                raise core.PathCut(str(e))
+                # the source execution ended within its bound (300 IR instructions); 10 wasm steps per IR instruction
+                # are far beyond what the translation needs: reported as non-termination, not cut
+                out["trap"] = "does not terminate within 3000 steps"
             for name in o1["mem"]:
                 out["mem"][name] = [sval(ws.peek(layout[name] + j)) for j in range(len(o1["mem"][name]))]
             out["trace"] = [(n.split(".", 1)[1], [sval(a) for a in args]) for n, args in ws.trace]
@@ -276,6 +287,8 @@ class Ir2WasmHarness(Harness):
         st = v["status"]
         if st.startswith("rejected") or st.startswith("reference-unsupported"):
             return {"not-comparable(" + st[:60] + ")": True}
+        if st == "globals-overlap":
+            return {"globals-have-disjoint-storage-outside-the-stack-area": False}
         if st != "ok":
             return {"output-is-valid-wasm": False}
         o1, o2, prem = v["o1"], v["o2"], v["premise"]
